@@ -2,12 +2,12 @@
 """Markdown table 'which checks catch which seeded change' from /verif/seeded/*/meta.json (written by collect_seeds.py)."""
 import json, os, glob
 rows = []
-for d in sorted(glob.glob('/verif/seeded/C*')):
+for d in sorted(glob.glob('/verif/seeded/C*-*') + glob.glob('/verif/seeded/R*-*')):
     m = json.load(open(os.path.join(d, 'meta.json')))
     sid = os.path.basename(d)
     own = m.get('own_property_result', '')
     own_s = {'caught (VIOLATION)': 'caught', 'MISSED (exit 0)': '**missed**', 'undecided (exit 2)': 'undecided'}.get(own, own)
-    if sid.split('-')[0] in m.get('bounded_only', []) and own_s == 'caught':
+    if m.get('property', sid.split('-')[0]) in m.get('bounded_only', []) and own_s == 'caught':
         own_s = 'caught (bounded)'
     summ = (m.get('summary') or '').replace('\n', ' ').replace('|', '/')
     summ = summ[:150] + ('...' if len(summ) > 150 else '')
